@@ -163,6 +163,9 @@ def finish_sym(res, specs, built, dagfiles, results, opts):
                 res.obligations += r['lemmas'] + 1   # lemmas + feasibility
                 res.discharged += r['lemmas_ok'] + (1 if r['feasible'] is not None else 0)
                 res.lemmas += r['lemmas']
+                if r.get('cross_checked'):
+                    res.extra['cross_solver_checked'] = res.extra.get('cross_solver_checked', 0) + r['cross_checked']; res.extra['cross_solver_agree'] = res.extra.get('cross_solver_agree', 0) + r['cross_agree']
+                    if r.get('cross_disagree'): res.errors.append({'what': 'solver disagreement (z3 4.8.12 vs z3 5.1)', 'entry': e.name, 'path': p.idx, 'lemmas': r['cross_disagree']})
                 if r['lemmas_ok'] != r['lemmas']:
                     res.undecided.append('%s path %d: %d step lemmas not discharged %s' % (e.name, p.idx, r['lemmas'] - r['lemmas_ok'], r.get('lemma_fail', [])[:3]))
                 if r['feasible'] is False:
